@@ -283,7 +283,9 @@ func (f *Flow) runGeneration(adopt bool) {
 	RunBubble(w, func(s *Sim) {
 		f.S = s
 		f.lastOnline = false
-		verifsim.SetSelect(o.SelectMode, uint64(w.Tape.rng)|1)
+		// the seed of the select poll order is a recorded draw: a replay
+		// follows the same order
+		verifsim.SetSelect(o.SelectMode, uint64(w.Tape.Draw("selseed", 1<<30))|1)
 		mqtt.VerifSetReadBufSize(o.ReadBuf)
 		w.Disk.Attach(s)
 		var store mqtt.Persistence = w.Disk
